@@ -3,12 +3,41 @@
 generator that tracks shapes, and ONE evaluator used for NumPy, for the expression engine and (in the helper
 subprocess vf.props.c30_classic) for the classic engine.
 
-A case is {"src": <source>, "steps": [<step>, ...]}: a spine of operations applied to one array; a step may bring
-its own auxiliary sources (second operand of a binary operation, other parts of a concatenate/stack).
-Evaluating steps[:k] gives the k-th prefix, which the monitor uses to localise a mismatch.
+A case is {"src": <source>, "steps": [<step>, ...], "exact": bool[, "config": {dask config key: value}]}: a spine of
+operations applied to one array; a step may bring its own auxiliary sources (second operand of a binary operation,
+other parts of a concatenate/stack).  Evaluating steps[:k] gives the k-th prefix, which the monitor uses to localise a
+mismatch.  "config" (optional) is applied with dask.config.set around construction AND computation, identically for
+both engines (array.rechunk.threshold, array.chunk-size, split_every).
+
+Two generators:
+* gen_case      random pipelines over every step kind; every keyword of the step kinds that the expression engine
+                implements is given a non-default, result-relevant value in some cases (see KEYWORDS below);
+* gen_rcplan_case  the rechunk-plan family: candidates (transposing long-thin -> thin-long chunkings, irregular
+                chunkings, small block_size_limit, threshold 1..4 by keyword or by config) are run through the pure
+                planner dask.array.rechunk.plan_rechunk and SELECTED by the shape of their plan: >= 2 passes, and
+                preferably >= 2 passes that cut blocks (a pass cuts when some block boundary of its output is not a
+                boundary of its input).  The rechunk is optionally preceded and followed by elementwise steps,
+                reductions, slices, transposes or a rechunk back.
+
+KEYWORDS (step kind: keyword -> how it is made non-default)
+  from_array: lock=True, inline_array=True, fancy=False, asarray=True/False ("kw" of the source)
+  arange: dtype; linspace: endpoint=False, dtype  (dtype keywords are passed as str and as numpy.dtype)
+  elementwise: binary ufunc called as da.<ufunc>(a, b, dtype=...) ("call": dtype).  out= raises NotImplementedError in the
+      engine and where= without out= leaves the unselected elements undefined in NumPy: neither is generated.
+  slicing: Ellipsis (["e"]) besides slices, integers and None
+  reductions: axis (int, negative, tuple, None), keepdims, split_every (int and {axis: k}), dtype (sum/prod/mean), and the
+      config key split_every
+  rechunk: chunks as tuple of tuples / int / dict (several axes, negative axes, None, -1, "auto") / -1 / "auto" / mixed
+      per-axis entries (tuple, int, -1, None, "auto"); threshold; block_size_limit; balance; method="tasks"
+  concatenate: axis (negative, None), allow_unknown_chunksizes=True, parts of another dtype, zero-length parts
+  stack: axis (negative), allow_unknown_chunksizes=True, parts of another dtype
+  map_blocks: dtype given / inferred (no dtype) / meta=, keyword and positional extra arguments (scalar, second array),
+      drop_axis, new_axis, chunks (block shape changing function), block_info, enforce_ndim=True
+  transpose: axes (permutation, negative, None)
 """
 from __future__ import annotations
 
+import contextlib
 import operator
 
 import numpy as np
@@ -21,6 +50,10 @@ EWK = ["add", "sub", "mul", "maximum", "minimum"]
 EWCMP = ["lt", "ge", "eq"]
 REDS = ["sum", "mean", "min", "max", "any", "all", "prod", "std", "var"]
 MB = ["double", "plus1", "negate", "tofloat"]
+MBKINDS = ["kw", "arg2", "drop", "newax", "chunks", "binfo", "endim"]
+UF = {"add": "add", "sub": "subtract", "mul": "multiply", "maximum": "maximum", "minimum": "minimum"}
+ALL_OPS = ("ew1", "ewk", "ew2", "ew2", "slice", "slice", "red", "red", "rechunk", "rechunk", "concat",
+           "stack", "mb", "T", "transpose", "cmp")
 
 
 # ---------------------------------------------------------------------------------------------
@@ -28,6 +61,17 @@ MB = ["double", "plus1", "negate", "tofloat"]
 
 def _jl(chunks):
     return [list(c) for c in chunks]
+
+
+class _S:
+    """Generator state: what is known about the current array of the spine."""
+    __slots__ = ("shape", "dtype", "exact", "isbool")
+
+    def __init__(self, shape, dtype, exact):
+        self.shape, self.dtype, self.exact, self.isbool = list(shape), dtype, exact, dtype == "bool"
+
+    def set_dtype(self, dtype):
+        self.dtype, self.isbool = dtype, dtype == "bool"
 
 
 def gen_source(rng, shape=None, dtype=None, allow_creation=True):
@@ -40,32 +84,47 @@ def gen_source(rng, shape=None, dtype=None, allow_creation=True):
     if kind in ("arange", "linspace") and len(shape) != 1:
         kind = "from_array"
     if kind == "from_array":
-        return {"k": kind, "shape": shape, "dtype": dtype, "seed": rng.randrange(2 ** 31), "chunks": chunks}
+        s = {"k": kind, "shape": shape, "dtype": dtype, "seed": rng.randrange(2 ** 31), "chunks": chunks}
+        if rng.random() < 0.12:
+            s["kw"] = rng.choice(({"lock": True}, {"lock": True, "inline_array": True}, {"fancy": False, "lock": True},
+                                  {"asarray": True}, {"asarray": False, "lock": True}, {"inline_array": True}))
+        return s
     if kind in ("ones", "zeros"):
         return {"k": kind, "shape": shape, "dtype": dtype, "chunks": chunks}
     if kind == "arange":
         step = rng.choice((1, 1, 2, -1))
         start = rng.randint(-3, 3)
         stop = start + step * shape[0]
-        return {"k": kind, "start": start, "stop": stop, "step": step, "shape": shape, "dtype": "int64", "chunks": chunks}
+        s = {"k": kind, "start": start, "stop": stop, "step": step, "shape": shape, "dtype": "int64", "chunks": chunks}
+        if rng.random() < 0.25:
+            s["dtype"] = s["dt"] = rng.choice(("float64", "float32", "int32"))
+            s["dtobj"] = rng.random() < 0.5          # passed as numpy.dtype / as str
+        return s
     start = rng.randint(-3, 3)
-    return {"k": "linspace", "start": start, "stop": start + rng.randint(1, 5), "num": shape[0], "shape": shape,
-            "dtype": "float64", "chunks": chunks}
+    s = {"k": "linspace", "start": start, "stop": start + rng.randint(1, 5), "num": shape[0], "shape": shape,
+         "dtype": "float64", "chunks": chunks}
+    if rng.random() < 0.3:
+        s["endpoint"] = False
+    if rng.random() < 0.15:
+        s["dtype"] = s["dt"] = "float32"
+        s["dtobj"] = rng.random() < 0.5
+    return s
 
 
 def _rand_index(rng, shape):
-    idx, out = [], []
+    per_axis = []          # per axis: (index items, output lengths)
     for n in shape:
+        items, outs = [], []
         r = rng.random()
         if r < 0.15:
-            idx.append(["n"])
-            out.append(1)
+            items.append(["n"])
+            outs.append(1)
         r = rng.random()
         if r < 0.2 and n > 0:
-            idx.append(["i", rng.randrange(-n, n)])
+            items.append(["i", rng.randrange(-n, n)])
         elif r < 0.45:
-            idx.append(["s", None, None, None])
-            out.append(n)
+            items.append(["s", None, None, None])
+            outs.append(n)
         else:
             step = rng.choice((None, 1, 1, 2, 3, -1, -2))
             # out-of-range bounds only with positive steps: with a negative step a start below -n is normalised wrongly
@@ -73,8 +132,16 @@ def _rand_index(rng, shape):
             lo, hi = (-n - 1, n + 1) if (step or 1) > 0 else (-n, max(n - 1, 0))
             start = rng.choice((None, rng.randint(lo, hi)))
             stop = rng.choice((None, rng.randint(lo, hi)))
-            out.append(len(range(*slice(start, stop, step).indices(n))))
-            idx.append(["s", start, stop, step])
+            outs.append(len(range(*slice(start, stop, step).indices(n))))
+            items.append(["s", start, stop, step])
+        per_axis.append((items, outs))
+    if rng.random() < 0.12 and shape:
+        # an Ellipsis standing for a (possibly empty) run of axes taken whole
+        i = rng.randint(0, len(shape))
+        j = rng.randint(i, len(shape))
+        per_axis[i:j] = [([["e"]], list(shape[i:j]))]
+    idx = [it for items, _ in per_axis for it in items]
+    out = [o for _, outs in per_axis for o in outs]
     if rng.random() < 0.1:
         idx.append(["n"])
         out.append(1)
@@ -84,159 +151,451 @@ def _rand_index(rng, shape):
     return idx, out
 
 
+def _rand_rechunk_entry(rng, n):
+    r = rng.random()
+    if r < 0.35:
+        return list(A.rand_comp(rng, n))
+    if r < 0.55:
+        return rng.randint(1, n)
+    if r < 0.7:
+        return -1
+    if r < 0.9:
+        return None
+    return "auto"
+
+
+def gen_step(rng, S, op):
+    """One step of kind `op` applicable to the state S (mutated on success), or None."""
+    shape, dtype = S.shape, S.dtype
+    nd = len(shape)
+    size = int(np.prod(shape)) if shape else 1
+    if op == "ew1":
+        if S.isbool:
+            return None
+        return {"op": "ew1", "f": rng.choice(EW1)}
+    if op == "ewk":
+        if S.isbool:
+            return None
+        return {"op": "ewk", "f": rng.choice(EWK), "k": rng.choice((2, -1, 3, 1)), "rev": rng.random() < 0.3}
+    if op == "cmp":
+        if not S.exact or S.isbool:
+            return None
+        st = {"op": "ewk", "f": rng.choice(EWCMP), "k": rng.choice((0, 1, 2)), "rev": False}
+        S.set_dtype("bool")
+        return st
+    if op == "ew2":
+        if S.isbool:
+            return None
+        s2 = list(shape)
+        for a in range(len(s2)):
+            if rng.random() < 0.3:
+                s2[a] = 1
+        s2 = s2[rng.randint(0, len(s2)):] if rng.random() < 0.4 else s2
+        d2 = rng.choice(("int64", "float64", dtype))
+        if d2 == "bool":
+            d2 = "int64"
+        o = gen_source(rng, s2, d2)
+        call = rng.random() < 0.15          # the ufunc called with dtype=: da.add(a, b, dtype="float32")
+        if rng.random() < 0.7 or call:
+            # chunked like the current array on the axes it shares with it (the evaluator derives the chunks):
+            # the pinned expression engine cannot unify differently chunked elementwise operands
+            o["chunks"] = "match"
+        if o["k"] == "linspace":
+            S.exact = False
+        st = {"op": "ew2", "f": rng.choice(EWK), "src": o, "rev": rng.random() < 0.3}
+        if (o["dtype"].startswith("float") or o["k"] == "linspace") and not dtype.startswith("float"):
+            S.set_dtype("float64")
+        if call:
+            st["call"] = rng.choice(("float64", "float32"))
+            st["callobj"] = rng.random() < 0.5       # dtype passed as numpy.dtype / as str
+            if st["call"] == "float32":
+                S.exact = False
+            S.set_dtype(st["call"])
+        return st
+    if op == "slice":
+        if nd == 0:
+            return None
+        idx, out = _rand_index(rng, shape)
+        if not idx or (0 in out and rng.random() < 0.7):
+            return None
+        S.shape = out
+        return {"op": "slice", "idx": idx}
+    if op == "red":
+        if nd == 0 or size == 0:
+            return None
+        f = rng.choice(REDS)
+        if f in ("std", "var") and rng.random() < 0.85:      # not implemented by the pinned expression engine
+            f = rng.choice(("sum", "mean", "min", "max"))
+        if f in ("any", "all") and not S.exact:
+            return None
+        if S.isbool and f in ("std", "var", "prod", "mean"):
+            return None
+        r = rng.random()
+        if r < 0.25:
+            axis = None
+        elif r < 0.75:
+            axis = rng.randrange(-nd, nd)
+        else:
+            axis = sorted(rng.sample(range(nd), rng.randint(1, nd)))
+        keepdims = rng.random() < 0.4
+        axes = list(range(nd)) if axis is None else ([axis % nd] if isinstance(axis, int) else axis)
+        se = rng.choice((None, None, 2, 3))
+        if rng.random() < 0.1:
+            # dict form; axes left out of the dict get the engine's default of 2
+            se = {str(a): rng.choice((2, 3, 4)) for a in axes if rng.random() < 0.7} or {str(axes[0]): 2}
+        st = {"op": "red", "f": f, "axis": axis, "keepdims": keepdims, "split_every": se}
+        S.shape = [1 if (i in axes) else n for i, n in enumerate(shape)] if keepdims else \
+            [n for i, n in enumerate(shape) if i not in axes]
+        if f in ("mean", "std", "var") or (f == "prod" and dtype.startswith("float")):
+            S.exact = False
+            S.set_dtype("float64" if not dtype.startswith("float") else dtype)
+        if f in ("any", "all"):
+            S.set_dtype("bool")
+        elif S.isbool and f in ("sum",):
+            S.set_dtype("int64")
+        if f in ("sum", "prod", "mean") and rng.random() < 0.12:
+            dt = rng.choice(("float64", "float32") if (f == "mean" or S.dtype.startswith("float")) else ("float64", "int32", "int64"))
+            st["dtype"] = dt
+            if dt == "float32" or (f == "prod" and dt.startswith("float")):
+                S.exact = False
+            S.set_dtype(dt)
+        return st
+    if op == "rechunk":
+        if nd == 0 or size == 0:
+            return None
+        form = rng.choice(("tuple", "tuple", "tuple", "int", "dict", "dict", "minus1", "mixed", "mixed", "auto"))
+        if form == "tuple":
+            ch = _jl(A.rand_chunks(rng, shape))
+        elif form == "int":
+            ch = rng.randint(1, max(shape))
+        elif form == "dict":
+            ch = {}
+            for a in rng.sample(range(nd), rng.randint(1, nd)):
+                e = _rand_rechunk_entry(rng, shape[a])
+                ch[str(a - nd if rng.random() < 0.3 else a)] = e
+        elif form == "mixed":
+            ch = [_rand_rechunk_entry(rng, n) for n in shape]
+        elif form == "auto":
+            ch = "auto"
+        else:
+            ch = -1
+        st = {"op": "rechunk", "chunks": ch, "balance": rng.random() < 0.1}
+        isz = np.dtype(S.dtype).itemsize
+        if rng.random() < 0.15 or form == "auto":
+            st["block_size_limit"] = isz * rng.randint(1, 12)
+        if rng.random() < 0.15:
+            st["threshold"] = rng.randint(1, 4)
+        if rng.random() < 0.1:
+            st["method"] = "tasks"
+        return st
+    if op in ("concat", "stack"):
+        if nd == 0 and op == "concat":
+            return None
+        if size == 0:
+            return None
+        axis = rng.randrange(nd) if op == "concat" else rng.randrange(nd + 1)
+        if rng.random() < 0.3:
+            axis -= (nd if op == "concat" else nd + 1)
+        flat = op == "concat" and rng.random() < 0.05          # concatenate(axis=None): every part flattened first
+        others = []
+        rdt = dtype
+        for _ in range(rng.randint(1, 2)):
+            if rng.random() < 0.3:
+                others.append("self")
+            else:
+                s2 = list(shape)
+                if op == "concat":
+                    s2[axis] = rng.randint(1, 4) if rng.random() > 0.08 else 0
+                d2 = dtype
+                if dtype != "bool" and rng.random() < 0.2:
+                    d2 = rng.choice(("int64", "float64", "float32", "int32"))
+                others.append(gen_source(rng, s2, d2, allow_creation=len(s2) == 1 and rng.random() < 0.3))
+                o = others[-1]
+                if o["k"] == "linspace":
+                    S.exact = False
+                rdt = np.result_type(rdt, o["dtype"]).name
+        pos = rng.randint(0, len(others))
+        st = {"op": op, "axis": None if flat else axis, "others": others, "pos": pos}
+        if rng.random() < 0.1:
+            st["auc"] = True
+        S.set_dtype(rdt)
+        if flat:
+            S.shape = [size + sum(size if o == "self" else int(np.prod(o["shape"])) for o in others)]
+        elif op == "concat":
+            a = axis % nd
+            S.shape = list(shape)
+            S.shape[a] = shape[a] + sum(shape[a] if o == "self" else o["shape"][a] for o in others)
+        else:
+            a = axis % (nd + 1)
+            S.shape = shape[:a] + [len(others) + 1] + shape[a:]
+        return st
+    if op == "mb":
+        if rng.random() < 0.45:
+            kind = rng.choice(MBKINDS)
+            if S.isbool or size == 0:
+                return None
+            st = {"op": "mb", "f": kind}
+            if kind == "kw":
+                st["k"] = rng.choice((2, 3, -1))
+                st["how"] = rng.choice(("kw", "pos"))
+            elif kind == "arg2":
+                st["src"] = {"k": "from_array", "shape": list(shape), "dtype": dtype, "seed": rng.randrange(2 ** 31),
+                             "chunks": "match"}
+            elif kind == "drop":
+                if nd < 2:
+                    return None
+                a = rng.randrange(nd)
+                st["axis"] = a - nd if rng.random() < 0.3 else a
+                S.shape = [n for i, n in enumerate(shape) if i != a]
+                if not dtype.startswith("float"):
+                    S.set_dtype("int64")
+            elif kind == "newax":
+                st["axis"] = rng.randint(0, nd)
+                S.shape = shape[:st["axis"]] + [1] + shape[st["axis"]:]
+            elif kind == "chunks":
+                if nd < 1:
+                    return None
+                S.shape = shape[:-1] + [1]
+                if not dtype.startswith("float"):
+                    S.set_dtype("int64")
+            elif kind == "binfo":
+                if nd < 1:
+                    return None
+            st["dt"] = rng.choice(("dtype", "dtype", "infer", "meta"))
+            return st
+        f = rng.choice(MB)
+        if S.isbool and f != "tofloat":
+            return None
+        st = {"op": "mb", "f": f}
+        if rng.random() < 0.3:
+            st["dt"] = rng.choice(("infer", "meta"))
+        if f == "tofloat":
+            S.set_dtype("float64")
+        return st
+    if op == "T":
+        if nd < 2 and rng.random() < 0.7:
+            return None
+        S.shape = shape[::-1]
+        return {"op": "T"}
+    if op == "transpose":
+        if nd < 2:
+            return None
+        if rng.random() < 0.15:
+            S.shape = shape[::-1]
+            return {"op": "transpose", "axes": None}
+        axes = list(range(nd))
+        rng.shuffle(axes)
+        S.shape = [shape[a] for a in axes]
+        if rng.random() < 0.3:
+            axes = [a - nd for a in axes]
+        return {"op": "transpose", "axes": axes}
+    raise ValueError(op)
+
+
 def gen_case(rng, maxsteps=5):
     src = gen_source(rng)
-    shape, dtype = list(src["shape"]), src["dtype"]
-    exact = src["k"] != "linspace"
-    isbool = dtype == "bool"
+    S = _S(src["shape"], src["dtype"], src["k"] != "linspace")
     steps = []
     nsteps = rng.randint(1, maxsteps)
     tries = 0
     while len(steps) < nsteps and tries < 40:
         tries += 1
-        nd = len(shape)
-        size = int(np.prod(shape)) if shape else 1
-        op = rng.choice(("ew1", "ewk", "ew2", "ew2", "slice", "slice", "red", "red", "rechunk", "rechunk", "concat",
-                         "stack", "mb", "T", "transpose", "cmp"))
-        if op == "ew1":
-            if isbool:
-                continue
-            steps.append({"op": "ew1", "f": rng.choice(EW1)})
-        elif op == "ewk":
-            if isbool:
-                continue
-            steps.append({"op": "ewk", "f": rng.choice(EWK), "k": rng.choice((2, -1, 3, 1)), "rev": rng.random() < 0.3})
-        elif op == "cmp":
-            if not exact or isbool:
-                continue
-            steps.append({"op": "ewk", "f": rng.choice(EWCMP), "k": rng.choice((0, 1, 2)), "rev": False})
-            isbool = True
-            dtype = "bool"
-        elif op == "ew2":
-            if isbool:
-                continue
-            s2 = list(shape)
-            for a in range(len(s2)):
-                if rng.random() < 0.3:
-                    s2[a] = 1
-            s2 = s2[rng.randint(0, len(s2)):] if rng.random() < 0.4 else s2
-            d2 = rng.choice(("int64", "float64", dtype))
-            if d2 == "bool":
-                d2 = "int64"
-            o = gen_source(rng, s2, d2)
-            if rng.random() < 0.7:
-                # chunked like the current array on the axes it shares with it (the evaluator derives the chunks):
-                # the pinned expression engine cannot unify differently chunked elementwise operands
-                o["chunks"] = "match"
-            if o["k"] == "linspace":
-                exact = False
-            steps.append({"op": "ew2", "f": rng.choice(EWK), "src": o, "rev": rng.random() < 0.3})
-            if (d2.startswith("float") or o["k"] == "linspace") and not dtype.startswith("float"):
-                dtype = "float64"
-        elif op == "slice":
-            if nd == 0:
-                continue
-            idx, out = _rand_index(rng, shape)
-            if not idx or (0 in out and rng.random() < 0.7):
-                continue
-            steps.append({"op": "slice", "idx": idx})
-            shape = out
-        elif op == "red":
-            if nd == 0 or size == 0:
-                continue
-            f = rng.choice(REDS)
-            if f in ("std", "var") and rng.random() < 0.85:      # not implemented by the pinned expression engine
-                f = rng.choice(("sum", "mean", "min", "max"))
-            if f in ("any", "all") and not exact:
-                continue
-            if isbool and f in ("std", "var", "prod", "mean"):
-                continue
-            r = rng.random()
-            if r < 0.25:
-                axis = None
-            elif r < 0.75:
-                axis = rng.randrange(-nd, nd)
+        st = gen_step(rng, S, rng.choice(ALL_OPS))
+        if st is not None:
+            steps.append(st)
+    case = {"src": src, "steps": steps, "exact": S.exact}
+    if rng.random() < 0.08:
+        case["config"] = rng.choice(({"split_every": 2}, {"split_every": 3}, {"array.rechunk.threshold": 1},
+                                     {"array.rechunk.threshold": 2}, {"array.chunk-size": "64B"}))
+    return case
+
+
+# ---------------------------------------------------------------------------------------------
+# the rechunk-plan family
+
+def _bounds(c):
+    s, out = 0, set()
+    for q in c:
+        s += q
+        out.add(s)
+    return out
+
+
+def cutting_passes(old, plan):
+    """Per pass of a rechunk plan: does it cut blocks (some output boundary is not an input boundary)?"""
+    res, cur = [], old
+    for st in plan:
+        res.append(any(not _bounds(n) <= _bounds(o) for o, n in zip(cur, st)))
+        cur = st
+    return res
+
+
+def plan_info(old, new, itemsize, threshold=None, block_size_limit=None):
+    """(number of passes, number of passes that cut blocks) of the plan the classic pure planner chooses."""
+    from dask.array.rechunk import plan_rechunk
+
+    old = tuple(tuple(int(q) for q in c) for c in old)
+    new = tuple(tuple(int(q) for q in c) for c in new)
+    plan = plan_rechunk(old, new, itemsize, threshold, block_size_limit)
+    return len(plan), sum(cutting_passes(old, plan))
+
+
+def _reg(n, k):
+    k = max(1, min(n, k))
+    return tuple([k] * (n // k) + ([n % k] if n % k else []))
+
+
+def _near(rng, n, k):
+    """Irregular chunking of n with block sizes around k."""
+    out, r = [], n
+    while r > 0:
+        q = min(r, max(1, k + rng.choice((-1, 0, 0, 0, 1))))
+        out.append(q)
+        r -= q
+    return tuple(out)
+
+
+def _rc_candidate(rng, maxlen):
+    """One candidate (shape, old chunks, new chunks, dtype, threshold, how, block_size_limit, how)."""
+    nd = 3 if rng.random() < 0.2 else 2
+    p, q = rng.sample(range(nd), 2)
+    n, m = rng.randint(6, maxlen), rng.randint(6, maxlen)
+    dtype = rng.choice(("float64", "float64", "int64", "float32", "int32", "bool"))
+    isz = np.dtype(dtype).itemsize
+    flavour = rng.choice(("transpose", "transpose", "transpose", "bsl", "irregular"))
+    a, b = rng.randint(1, 3), rng.randint(1, 3)
+    f = (lambda nn, kk: _near(rng, nn, kk)) if (flavour == "irregular" or rng.random() < 0.25) else _reg
+    if flavour == "irregular":
+        old_p, old_q = f(n, a), A.rand_comp(rng, m)
+        new_p, new_q = A.rand_comp(rng, n), f(m, b)
+    else:
+        M = rng.choice((m, m, max(1, m - rng.randint(1, 4)), max(2, m // 2)))
+        N = rng.choice((n, max(1, n - rng.randint(1, 4)), max(2, n // 2), rng.randint(2, n)))
+        old_p, old_q = f(n, a), f(m, M)
+        new_p, new_q = f(n, N), f(m, b)
+    shape, old, new = [0] * nd, [None] * nd, [None] * nd
+    shape[p], shape[q] = n, m
+    old[p], old[q], new[p], new[q] = old_p, old_q, new_p, new_q
+    if nd == 3:
+        r = 3 - p - q
+        shape[r] = rng.randint(1, 3)
+        old[r] = rng.choice(((shape[r],), (1,) * shape[r]))
+        new[r] = rng.choice((old[r], old[r], (shape[r],), (1,) * shape[r]))
+    thr = rng.choice((None, None, 1, 2, 3, 4))
+    thr_how = rng.choice(("kw", "kw", "config")) if thr else None
+    bsl = None
+    if flavour == "bsl" or rng.random() < 0.15:
+        bsl = isz * rng.randint(4, 64)
+    bsl_how = rng.choice(("kw", "kw", "kw", "config")) if bsl else None
+    return shape, tuple(old), tuple(new), dtype, thr, thr_how, bsl, bsl_how
+
+
+def gen_rcplan_case(rng, maxlen=24):
+    """A case of the rechunk-plan family, selected by the planner: 60 % want >= 2 cutting passes, 30 % want >= 2 passes,
+    10 % take the first candidate (one-pass plans with threshold / block_size_limit given)."""
+    r = rng.random()
+    want = 2 if r < 0.6 else (1 if r < 0.9 else 0)
+    best = None
+    for _ in range(120):
+        cand = _rc_candidate(rng, maxlen)
+        shape, old, new, dtype, thr, thr_how, bsl, bsl_how = cand
+        npass, ncut = plan_info(old, new, np.dtype(dtype).itemsize, thr, bsl)
+        score = 2 if (npass >= 2 and ncut >= 2) else (1 if npass >= 2 else 0)
+        if best is None or score > best[0]:
+            best = (score, cand, npass, ncut)
+        if score >= want:
+            best = (score, cand, npass, ncut)
+            break
+    _, (shape, old, new, dtype, thr, thr_how, bsl, bsl_how), npass, ncut = best
+    config = {}
+    rc = {"op": "rechunk", "chunks": _jl(new), "balance": False}
+    if thr:
+        if thr_how == "kw":
+            rc["threshold"] = thr
+        else:
+            config["array.rechunk.threshold"] = thr
+    if bsl:
+        if bsl_how == "kw":
+            rc["block_size_limit"] = bsl
+        else:
+            config["array.chunk-size"] = "%dB" % bsl
+    if rng.random() < 0.1:
+        rc["method"] = "tasks"
+    src = {"k": "from_array", "shape": list(shape), "dtype": dtype, "seed": rng.randrange(2 ** 31), "chunks": _jl(old)}
+    steps = []
+    S = _S(shape, dtype, True)
+    # 0-1 steps in front that keep shape and chunks (T: the source is laid out transposed)
+    r = rng.random()
+    if r < 0.15:
+        src["shape"] = list(shape[::-1])
+        src["chunks"] = _jl(old[::-1])
+        steps.append({"op": "T"})
+    elif r < 0.5:
+        for _ in range(6):
+            op = rng.choice(("ew1", "ewk", "ew2", "mb"))
+            if op == "ewk" and S.dtype in ("int32", "float32"):
+                continue        # known finding of the engine (python scalar with a sub-64-bit array): keep it out of this family
+            if op == "mb":
+                if S.isbool:
+                    continue
+                st = {"op": "mb", "f": rng.choice(("double", "plus1", "negate"))}
+            elif op == "ew2":
+                if S.isbool:
+                    continue
+                st = {"op": "ew2", "f": rng.choice(EWK), "rev": rng.random() < 0.3,
+                      "src": {"k": "from_array", "shape": list(shape), "dtype": dtype, "seed": rng.randrange(2 ** 31),
+                              "chunks": "match"}}
             else:
-                axis = sorted(rng.sample(range(nd), rng.randint(1, nd)))
-            keepdims = rng.random() < 0.4
-            steps.append({"op": "red", "f": f, "axis": axis, "keepdims": keepdims, "split_every": rng.choice((None, None, 2, 3))})
-            axes = list(range(nd)) if axis is None else ([axis % nd] if isinstance(axis, int) else axis)
-            shape = [1 if (i in axes) else n for i, n in enumerate(shape)] if keepdims else \
-                [n for i, n in enumerate(shape) if i not in axes]
-            if f in ("mean", "std", "var") or (f == "prod" and dtype.startswith("float")):
-                exact = False
-                dtype = "float64" if not dtype.startswith("float") else dtype
-            if f in ("any", "all"):
-                isbool, dtype = True, "bool"
-            elif isbool and f in ("sum",):
-                isbool, dtype = False, "int64"
-        elif op == "rechunk":
-            if nd == 0 or size == 0:
+                st = gen_step(rng, S, op)
+            if st is not None:
+                steps.append(st)
+                break
+    steps.append(rc)
+    # 0-2 steps behind
+    for _ in range(rng.choice((0, 1, 1, 2, 2))):
+        for _ in range(8):
+            op = rng.choice(("ew1", "ewk", "ew2m", "red", "red", "slice", "T", "transpose", "back", "mb", "cmp"))
+            if op == "ewk" and S.dtype in ("int32", "float32"):
                 continue
-            form = rng.choice(("tuple", "tuple", "tuple", "int", "dict", "minus1"))
-            if form == "tuple":
-                ch = _jl(A.rand_chunks(rng, shape))
-            elif form == "int":
-                ch = rng.randint(1, max(shape))
-            elif form == "dict":
-                a = rng.randrange(nd)
-                ch = {str(a): rng.randint(1, shape[a])}
+            if op == "back":
+                if list(S.shape) != list(shape):
+                    continue
+                st = {"op": "rechunk", "chunks": _jl(old), "balance": False}
+                if thr and thr_how == "kw":
+                    st["threshold"] = thr
+            elif op == "ew2m":
+                if S.isbool:
+                    continue
+                st = {"op": "ew2", "f": rng.choice(EWK), "rev": rng.random() < 0.3,
+                      "src": {"k": "from_array", "shape": list(S.shape), "dtype": S.dtype, "seed": rng.randrange(2 ** 31),
+                              "chunks": "match"}}
+            elif op == "mb":
+                if S.isbool:
+                    continue
+                st = {"op": "mb", "f": rng.choice(("double", "plus1", "negate"))}
+            elif op == "red":
+                if not S.shape:
+                    continue
+                f = rng.choice(("any", "all") if S.isbool else ("sum", "sum", "max", "min", "mean"))
+                nd = len(S.shape)
+                axis = rng.choice([None, 0, -1] + ([1, [0, 1]] if nd >= 2 else []) + ([[0, 2]] if nd >= 3 else []))
+                keepdims = rng.random() < 0.3
+                axes = list(range(nd)) if axis is None else ([axis % nd] if isinstance(axis, int) else axis)
+                st = {"op": "red", "f": f, "axis": axis, "keepdims": keepdims, "split_every": rng.choice((None, None, 2, 4))}
+                S.shape = [1 if i in axes else n for i, n in enumerate(S.shape)] if keepdims else \
+                    [n for i, n in enumerate(S.shape) if i not in axes]
+                if f == "mean":
+                    S.exact = False
+                    S.set_dtype(S.dtype if S.dtype.startswith("float") else "float64")
             else:
-                ch = -1
-            steps.append({"op": "rechunk", "chunks": ch, "balance": rng.random() < 0.1})
-        elif op in ("concat", "stack"):
-            if nd == 0 and op == "concat":
-                continue
-            if size == 0:
-                continue
-            axis = rng.randrange(nd) if op == "concat" else rng.randrange(nd + 1)
-            if rng.random() < 0.3:
-                axis -= (nd if op == "concat" else nd + 1)
-            others = []
-            for _ in range(rng.randint(1, 2)):
-                if rng.random() < 0.3:
-                    others.append("self")
-                else:
-                    s2 = list(shape)
-                    if op == "concat":
-                        s2[axis] = rng.randint(1, 4)
-                    d2 = dtype if dtype != "bool" else "bool"
-                    others.append(gen_source(rng, s2, d2, allow_creation=len(s2) == 1 and rng.random() < 0.3))
-                    if others[-1]["k"] == "linspace":
-                        exact = False
-                        if not dtype.startswith("float"):
-                            dtype = "float64"
-            pos = rng.randint(0, len(others))
-            steps.append({"op": op, "axis": axis, "others": others, "pos": pos})
-            if op == "concat":
-                a = axis % nd
-                shape = list(shape)
-                shape[a] = shape[a] + sum(shape[a] if o == "self" else o["shape"][a] for o in others)
-            else:
-                a = axis % (nd + 1)
-                shape = shape[:a] + [len(others) + 1] + shape[a:]
-        elif op == "mb":
-            f = rng.choice(MB)
-            if isbool and f != "tofloat":
-                continue
-            steps.append({"op": "mb", "f": f})
-            if f == "tofloat":
-                dtype, isbool = "float64", False
-        elif op == "T":
-            if nd < 2 and rng.random() < 0.7:
-                continue
-            steps.append({"op": "T"})
-            shape = shape[::-1]
-        elif op == "transpose":
-            if nd < 2:
-                continue
-            axes = list(range(nd))
-            rng.shuffle(axes)
-            if rng.random() < 0.3:
-                axes = [a - nd for a in axes]
-            steps.append({"op": "transpose", "axes": axes})
-            shape = [shape[a] for a in axes]
-    return {"src": src, "steps": steps, "exact": exact}
+                st = gen_step(rng, S, op)
+            if st is not None:
+                steps.append(st)
+                break
+    case = {"family": "rcplan", "src": src, "steps": steps, "exact": S.exact}
+    if config:
+        case["config"] = config
+    return case
 
 
 # ---------------------------------------------------------------------------------------------
@@ -258,7 +617,55 @@ def _tofloat(x):
     return x.astype("float64") / 2
 
 
+def _addk(x, k=0):
+    return x + k
+
+
+def _add2(x, y):
+    return x + y
+
+
+def _sum_axis(x, axis=0):
+    return x.sum(axis=axis)
+
+
+def _expand(x, axis=0):
+    return np.expand_dims(x, axis)
+
+
+def _sumlast_keep(x):
+    return x.sum(axis=-1, keepdims=True)
+
+
+def _add_loc0(x, block_info=None):
+    if block_info is None or 0 not in block_info:      # dtype / meta inference calls
+        return x
+    lo, hi = block_info[0]["array-location"][0]
+    return x + np.arange(lo, hi).astype(x.dtype).reshape((-1,) + (1,) * (x.ndim - 1))
+
+
+def _ident(x):
+    return x + 0
+
+
 MBF = {"double": _double, "plus1": _plus1, "negate": _negate, "tofloat": _tofloat}
+
+
+@contextlib.contextmanager
+def config_ctx(case):
+    """The dask configuration a case asks for (nothing for most cases)."""
+    cfg = case.get("config")
+    if not cfg:
+        yield
+        return
+    import dask
+
+    with dask.config.set(dict(cfg)):
+        yield
+
+
+def _dt(name, as_object):
+    return np.dtype(name) if as_object else name
 
 
 def build_source(s, mod, like=None):
@@ -276,14 +683,20 @@ def build_source(s, mod, like=None):
     k = s["k"]
     if k == "from_array":
         x = A.rand_data(s["seed"], s["shape"], s["dtype"], special=False)
-        return x if isnp else mod.from_array(x, chunks=chunks)
+        return x if isnp else mod.from_array(x, chunks=chunks, **s.get("kw", {}))
     if k in ("ones", "zeros"):
         f = getattr(mod, k)
         return f(tuple(s["shape"]), dtype=s["dtype"]) if isnp else f(tuple(s["shape"]), dtype=s["dtype"], chunks=chunks)
     if k == "arange":
-        return np.arange(s["start"], s["stop"], s["step"]) if isnp else mod.arange(s["start"], s["stop"], s["step"], chunks=chunks)
+        kw = {"dtype": _dt(s["dt"], s.get("dtobj"))} if s.get("dt") else {}
+        return np.arange(s["start"], s["stop"], s["step"], **kw) if isnp else \
+            mod.arange(s["start"], s["stop"], s["step"], chunks=chunks, **kw)
     if k == "linspace":
-        return np.linspace(s["start"], s["stop"], s["num"]) if isnp else mod.linspace(s["start"], s["stop"], s["num"], chunks=chunks)
+        kw = {"dtype": _dt(s["dt"], s.get("dtobj"))} if s.get("dt") else {}
+        if "endpoint" in s:
+            kw["endpoint"] = s["endpoint"]
+        return np.linspace(s["start"], s["stop"], s["num"], **kw) if isnp else \
+            mod.linspace(s["start"], s["stop"], s["num"], chunks=chunks, **kw)
     raise ValueError(k)
 
 
@@ -292,11 +705,79 @@ def _index(idx):
     for it in idx:
         if it[0] == "n":
             out.append(None)
+        elif it[0] == "e":
+            out.append(Ellipsis)
         elif it[0] == "i":
             out.append(it[1])
         else:
             out.append(slice(it[1], it[2], it[3]))
     return tuple(out)
+
+
+def rechunk_arg(ch):
+    """The chunks argument of a rechunk step as passed to dask."""
+    def entry(e):
+        return tuple(e) if isinstance(e, list) else e
+
+    if isinstance(ch, dict):
+        return {int(k): entry(v) for k, v in ch.items()}
+    if isinstance(ch, list):
+        return tuple(entry(e) for e in ch)
+    return ch
+
+
+def _map_blocks(x, st, mod):
+    isnp = mod is np
+    f = st["f"]
+    how = st.get("dt", "dtype")
+
+    def dkw(dtype, ndim):
+        if how == "infer":
+            return {}
+        if how == "meta":
+            return {"meta": np.empty((0,) * ndim, dtype=dtype)}
+        return {"dtype": dtype}
+
+    if f in MBF:
+        if isnp:
+            return MBF[f](x)
+        return x.map_blocks(MBF[f], **dkw("float64" if f == "tofloat" else x.dtype, x.ndim))
+    if f == "kw":
+        if isnp:
+            return x + st["k"]
+        dt = (np.empty(0, x.dtype) + st["k"]).dtype
+        if st.get("how") == "pos":
+            return x.map_blocks(_addk, st["k"], **dkw(dt, x.ndim))
+        return x.map_blocks(_addk, k=st["k"], **dkw(dt, x.ndim))
+    if f == "arg2":
+        y = build_source(st["src"], mod, like=x)
+        if isnp:
+            return x + y
+        return mod.map_blocks(_add2, x, y, **dkw(np.result_type(x.dtype, y.dtype), x.ndim))
+    if f == "drop":
+        if isnp:
+            return x.sum(axis=st["axis"])
+        dt = np.empty((0,) * x.ndim, x.dtype).sum(axis=st["axis"]).dtype
+        return x.map_blocks(_sum_axis, axis=st["axis"], drop_axis=st["axis"], **dkw(dt, x.ndim - 1))
+    if f == "newax":
+        if isnp:
+            return np.expand_dims(x, st["axis"])
+        return x.map_blocks(_expand, axis=st["axis"], new_axis=st["axis"], **dkw(x.dtype, x.ndim + 1))
+    if f == "chunks":
+        if isnp:
+            return x.sum(axis=-1, keepdims=True)
+        dt = np.empty((0,) * x.ndim, x.dtype).sum(axis=-1).dtype
+        y = x.rechunk({x.ndim - 1: -1})
+        return y.map_blocks(_sumlast_keep, chunks=tuple(y.chunks[:-1]) + ((1,),), **dkw(dt, x.ndim))
+    if f == "binfo":
+        if isnp:
+            return x + np.arange(x.shape[0]).astype(x.dtype).reshape((-1,) + (1,) * (x.ndim - 1))
+        return x.map_blocks(_add_loc0, **dkw(x.dtype, x.ndim))
+    if f == "endim":
+        if isnp:
+            return x + 0
+        return x.map_blocks(_ident, enforce_ndim=True, **dkw(x.dtype, x.ndim))
+    raise ValueError(f)
 
 
 def apply_step(x, st, mod):
@@ -309,6 +790,8 @@ def apply_step(x, st, mod):
         f = st["f"]
         y = st["k"] if op == "ewk" else build_source(st["src"], mod, like=x)
         a, b = (y, x) if st.get("rev") else (x, y)
+        if st.get("call"):
+            return getattr(mod, UF[f])(a, b, dtype=_dt(st["call"], st.get("callobj")))
         if f in ("maximum", "minimum"):
             return getattr(mod, f)(a, b)
         return getattr(operator, f)(a, b)
@@ -318,30 +801,31 @@ def apply_step(x, st, mod):
         axis = st["axis"]
         axis = tuple(axis) if isinstance(axis, list) else axis
         kw = {"axis": axis, "keepdims": st["keepdims"]}
-        if not isnp and st.get("split_every") is not None:
-            kw["split_every"] = st["split_every"]
+        if st.get("dtype"):
+            kw["dtype"] = st["dtype"]
+        se = st.get("split_every")
+        if not isnp and se is not None:
+            kw["split_every"] = {int(k): v for k, v in se.items()} if isinstance(se, dict) else se
         return getattr(mod, st["f"])(x, **kw)
     if op == "rechunk":
         if isnp:
             return x
-        ch = st["chunks"]
-        if isinstance(ch, dict):
-            ch = {int(k): v for k, v in ch.items()}
-        elif isinstance(ch, list):
-            ch = A.chunks_of_desc(ch)
-        return x.rechunk(ch, balance=True) if st.get("balance") else x.rechunk(ch)
+        kw = {k: st[k] for k in ("threshold", "block_size_limit", "method") if st.get(k) is not None}
+        if st.get("balance"):
+            kw["balance"] = True
+        return x.rechunk(rechunk_arg(st["chunks"]), **kw)
     if op in ("concat", "stack"):
         parts = [x if o == "self" else build_source(o, mod) for o in st["others"]]
         parts.insert(st["pos"], x)
-        return (mod.concatenate if op == "concat" else mod.stack)(parts, axis=st["axis"])
+        kw = {"allow_unknown_chunksizes": True} if (st.get("auc") and not isnp) else {}
+        return (mod.concatenate if op == "concat" else mod.stack)(parts, axis=st["axis"], **kw)
     if op == "mb":
-        f = MBF[st["f"]]
-        if isnp:
-            return f(x)
-        return x.map_blocks(f, dtype="float64" if st["f"] == "tofloat" else x.dtype)
+        return _map_blocks(x, st, mod)
     if op == "T":
         return x.T
     if op == "transpose":
+        if st["axes"] is None:
+            return np.transpose(x) if isnp else x.transpose()
         return mod.transpose(x, st["axes"]) if isnp else x.transpose(st["axes"])
     raise ValueError(op)
 
@@ -355,4 +839,4 @@ def evaluate(case, mod, upto=None):
 
 
 def op_names(case):
-    return [case["src"]["k"]] + [st["op"] + (":" + st["f"] if st["op"] == "red" else "") for st in case["steps"]]
+    return [case["src"]["k"]] + [st["op"] + (":" + st["f"] if st["op"] in ("red", "mb") else "") for st in case["steps"]]
